@@ -277,6 +277,7 @@ type dCheck struct {
 	t0      int64
 	primary *prov
 	ws      []*prov
+	between bool // the target lies below the latest trusted header
 }
 
 // dPrecondition (clause D): the current primary and at least one current witness are both reliable,
@@ -329,7 +330,11 @@ func (x *runner) dPrecondition(cd callDesc, before map[int64]*types.LightBlock) 
 	if cd.Op == "verify_header" && string(cd.hdr.Hash()) != string(pb.Hash()) {
 		return d
 	}
-	if !x.o.adjacentValid(P.view, t0, th, cd.now) {
+	// how can the primary back its header: by adjacent steps all the way, or (skipping mode) in one
+	// non-adjacent step from the common block
+	adjP := x.o.adjacentValid(P.view, t0, th, cd.now)
+	dirP := x.sc.desc.Mode == "skipping" && x.o.stepStrict(L0, pb, cd.now)
+	if !adjP && !dirP {
 		return d
 	}
 	for _, wp := range x.cl.Witnesses() {
@@ -341,11 +346,17 @@ func (x *runner) dPrecondition(cd callDesc, before map[int64]*types.LightBlock) 
 		if wb == nil || w0 == nil || string(w0.Hash()) != string(L0.Hash()) || string(wb.Hash()) == string(pb.Hash()) {
 			continue
 		}
-		if x.o.adjacentValid(W.view, t0, th, cd.now) {
+		// both sides by adjacent steps (any bisection succeeds), or both in one direct step (no pivots at all)
+		if (adjP && x.o.adjacentValid(W.view, t0, th, cd.now)) || (dirP && x.o.stepStrict(L0, wb, cd.now)) {
 			d.ws = append(d.ws, W)
 		}
 	}
 	d.applies, d.th, d.t0, d.primary = len(d.ws) > 0, th, t0, P
+	for h := range before {
+		if h > th {
+			d.between = true
+		}
+	}
 	return d
 }
 
@@ -770,12 +781,33 @@ func (x *runner) call(ci int) bool {
 		if errors.Is(err, light.ErrLightClientAttack) && !bothSides {
 			problems = append(problems, "evidence naming the other side's block was not sent to both the primary and the conflicting witness")
 		}
+		// a witness that can back its header must still be a witness afterwards
+		dropped := false
+		still := map[int]bool{}
+		for _, w := range x.cl.Witnesses() {
+			if q := x.provOf(w); q != nil {
+				still[q.desc.ID] = true
+			}
+		}
+		for _, w := range dchk.ws {
+			if !still[w.desc.ID] {
+				dropped = true
+				problems = append(problems, fmt.Sprintf("witness p%d, which can back its header, is no longer in the witness list", w.desc.ID))
+			}
+		}
+		if dchk.between {
+			k.Count("oracleD.evaluated_target_below_latest_trusted", 1)
+		}
 		if len(problems) > 0 {
 			key := "verifiable-conflicting-witness-not-handled-as-attack"
-			if errors.Is(err, light.ErrLightClientAttack) && len(fresh) == 0 {
+			if errors.Is(err, light.ErrLightClientAttack) && len(fresh) == 0 && !bothSides {
 				key = "attack-evidence-not-sent-to-both-sides"
+			} else if errors.Is(err, light.ErrLightClientAttack) && len(fresh) == 0 && dropped {
+				key = "honest-witness-dropped-after-backable-conflict"
 			} else if otherConflict {
 				key = "detector-conflict-falls-through-as-match"
+			} else if dchk.between {
+				key = "conflict-below-latest-trusted-not-reported"
 			}
 			var wids []int
 			for _, w := range dchk.ws {
@@ -806,6 +838,15 @@ func (x *runner) call(ci int) bool {
 			k.Violation(key, fmt.Sprintf("%s: evidence handed to p%d names height %d hash %X as the conflicting block, but no chain of reference steps leads to that block from the headers trusted before the call through the light blocks providers returned during the call (the call returned %q)",
 				cd.Op, e.Prov, e.Height, []byte(e.Hash), fmt.Sprint(err)), x.witness(ci, map[string]interface{}{"error_returned": fmt.Sprint(err)}, s0))
 			break
+		}
+	}
+	if d.Stream == "recipe-mid" {
+		last := ci == len(d.Calls)-1
+		if last {
+			k.Count("recipe_mid."+strings.SplitN(d.Recipe, ":", 2)[0]+"."+class, 1)
+			k.Count("recipe_mid.stored_at_target", int64(len(fresh)))
+		} else {
+			k.Count("recipe_mid.setup_call."+class, 1)
 		}
 	}
 	if d.Stream == "recipe-nil" {
